@@ -94,6 +94,27 @@ fn observe(m: &SlotMap, r: &Ref, universe: &[Slot]) -> Result<u64, String> {
     if let Some(a) = build_array(r) {
         builds.push(("array", a));
     }
+    // from_pairs over pair lists in other orders (rotations, adjacent swaps, reversed)
+    {
+        let sorted: Vec<(Slot, Slot)> = r.iter().map(|(a, b)| (*a, *b)).collect();
+        if sorted.len() >= 2 {
+            let mut rev = sorted.clone();
+            rev.reverse();
+            builds.push(("from_pairs-reversed", SlotMap::from_pairs(&rev)));
+            let mut rot = sorted.clone();
+            rot.rotate_left(1);
+            builds.push(("from_pairs-rotated", SlotMap::from_pairs(&rot)));
+            let mut sw = sorted.clone();
+            let n = sw.len();
+            sw.swap(n - 2, n - 1);
+            builds.push(("from_pairs-swapped", SlotMap::from_pairs(&sw)));
+            if sorted.len() >= 3 {
+                let mut mid = sorted.clone();
+                mid.swap(1, 2);
+                builds.push(("from_pairs-swapped-1-2", SlotMap::from_pairs(&mid)));
+            }
+        }
+    }
     for (nm, o) in builds {
         chk!(format!("eq-vs-{nm}"), *m == o && o == *m);
         chk!(format!("hash-vs-{nm}"), h(m) == h(&o));
